@@ -309,6 +309,34 @@ let cmd_prologue () =
     done
   with End_of_file -> ()
 
+(* ---------------- import aliases: "<taken,..> | dir/base name | ..." -> names ; addImports *)
+let codes_of s = List.init (String.length s) (fun i -> nat_of_int (Char.code s.[i]))
+let string_of_codes l = String.concat "" (List.map (fun c -> String.make 1 (Char.chr (int_of_nat c))) l)
+let cmd_alias () =
+  try
+    while true do
+      let line = input_line stdin in
+      match String.split_on_char '|' line with
+      | [] -> ()
+      | taken :: reqs ->
+        let init = List.filter_map (fun n -> let n = String.trim n in if n = "" then None else Some (codes_of n))
+            (String.split_on_char ',' taken) in
+        let rq = List.filter_map (fun r -> match split_ws r with
+          | [p; n] ->
+            let (d, b) = match String.rindex_opt p '/' with
+              | Some i -> (String.sub p 0 i, String.sub p (i + 1) (String.length p - i - 1))
+              | None -> ("", p) in
+            Some ((codes_of d, codes_of b), codes_of n)
+          | _ -> None) reqs in
+        (match requests rq (start init) with
+         | None -> print_endline "STUCK"
+         | Some (names, s) ->
+           let show_path (d, b) = (if d = [] then "" else string_of_codes d ^ "/") ^ string_of_codes b in
+           let adds = List.sort compare (List.map (fun (p, n) -> show_path p ^ "=" ^ string_of_codes n) s.adds) in
+           Printf.printf "%s ; %s\n" (String.concat " " (List.map string_of_codes names)) (String.concat "," adds))
+    done
+  with End_of_file -> ()
+
 (* ---------------- emitter stacks: "L1 L2 ; V0 L3" -> receivers of each v_k, "1,2|1,2,3" *)
 let cmd_emstack () =
   try
@@ -334,6 +362,7 @@ let () =
   | _ :: "flowobs" :: _ -> cmd_flowobs ()
   | _ :: "prologue" :: _ -> cmd_prologue ()
   | _ :: "emstack" :: _ -> cmd_emstack ()
+  | _ :: "alias" :: _ -> cmd_alias ()
   | _ :: "validate" :: _ -> cmd_validate ()
   | _ :: "sched-replay" :: _ -> cmd_sched_replay ()
   | _ :: "invert" :: _ -> cmd_invert ()
